@@ -349,8 +349,15 @@ func (self *Core) runInstruction(instruction compiler.Instruction) *value.VmInte
 		}
 	case compiler.Opcode_Pow:
 		// TODO: improve performance here
-		r := (*self.pop()).(value.ValueInt).Inner
-		l := (*self.pop()).(value.ValueInt).Inner
+		rRaw := *self.pop()
+		lRaw := *self.pop()
+		if lRaw.Kind() == value.FloatValueKind {
+			// The analyzer also admits `**` on floats.
+			self.push(value.NewValueFloat(math.Pow(lRaw.(value.ValueFloat).Inner, rRaw.(value.ValueFloat).Inner)))
+			break
+		}
+		r := rRaw.(value.ValueInt).Inner
+		l := lRaw.(value.ValueInt).Inner
 		res := math.Pow(float64(l), float64(r))
 		self.push(value.NewValueInt(int64(res)))
 	case compiler.Opcode_Div:
